@@ -50,7 +50,7 @@ def explore(task, max_paths=MAX_PATHS, start=None, split_at=None):
 def canonical_sites(c, yo, ylist, node):
     """yield sites are numbered in source order; a contract may name them by WHAT they yield instead
     (site_keys(sites) with sites = [(source ordinal, source of the yielded expression, source of the enclosing
-    statement)] -> canonical ordinals), so that reordering the arms of an if/elif chain or of a try statement does
+    statement, type of the enclosing except handler)] -> canonical ordinals), so that reordering the arms of an if/elif chain or of a try statement does
     not move a clause to another yield"""
     key = getattr(c, 'site_keys', None)
     if key is None or not ylist:
@@ -64,8 +64,14 @@ def canonical_sites(c, yo, ylist, node):
                     # innermost enclosing simple statement wins (walk visits outer statements first)
                     if not isinstance(n, (_ast.If, _ast.While, _ast.For, _ast.Try, _ast.With, _ast.FunctionDef)):
                         parent[id(sub)] = n
+    handler = {}
+    for n in _ast.walk(node):
+        if isinstance(n, _ast.ExceptHandler):
+            for sub in _ast.walk(n):
+                if isinstance(sub, (_ast.Yield, _ast.YieldFrom)):
+                    handler[id(sub)] = _ast.unparse(n.type) if n.type is not None else 'BaseException'     # innermost wins (walk order)
     sites = [(k, _ast.unparse(y.value) if getattr(y, 'value', None) is not None else '',
-              _ast.unparse(parent[id(y)]) if id(y) in parent else '') for k, y in enumerate(ylist)]
+              _ast.unparse(parent[id(y)]) if id(y) in parent else '', handler.get(id(y), '')) for k, y in enumerate(ylist)]
     ks = list(key(sites))
     if sorted(ks) != list(range(len(ylist))):
         raise Unsupported('%s: its yield sites are not the ones the contract names (%s)' % (c.qual, ks))
